@@ -413,6 +413,22 @@ pub fn run(opts: &Opts) -> Report {
         }
         if i == 0 { rep.sample(json!({"query": s0})); }
     }
+    // every kind of constraint ending (quoted, unquoted, number, union bracket, with and without the semicolon) followed by
+    // every kind of white space (also wider than one byte) and then a sub-query block, a bar or a closing brace: the
+    // places where the parser slices at fixed byte widths
+    {
+        let bodies = ["ID \"a\"", "ID a", "[ ID \"a\" ]", "[ ID \"a\" OR ID \"b\" ]", "DATA \"s\" \"k\" = 5", "DATA \"s\" \"k\"", "TEXT \"x\"", "LIMIT 3", "LIMIT 1 2", "ANNOTATION ?a", "RESOURCE \"r\" OFFSET 0 5", "RELATION ?x EMBEDS", "SUBSTORE NONE", "VALUE = \"v\"", "KEY ?k"];
+        let wss = ["", " ", "\u{a0}", "\u{3000}", "\t", "\n", "\r\n", "\u{2028}", "\u{85}", " \u{a0} "];
+        let nexts = ["{ SELECT ANNOTATION }", "{ SELECT ANNOTATION ?b | SELECT DATA ?c }", "{", "}", "|", "{\u{a0}SELECT ANNOTATION\u{a0}}", "{ SELECT ANNOTATION\u{3000}|\u{3000}SELECT DATA }"];
+        for b in bodies { for semi in ["", ";"] { for w in wss { for nx in nexts {
+            let q = format!("SELECT ANNOTATION ?a WHERE {}{}{}{}", b, semi, w, nx);
+            check_malformed(&mut rep, &q);
+            let q2 = format!("SELECT ANNOTATION ?a{}{}", w, nx);
+            check_malformed(&mut rep, &q2);
+            let q3 = format!("DELETE ANNOTATION ?a{}{{ SELECT ANNOTATION ?a WHERE {}{}{}}}", w, b, semi, w);
+            check_malformed(&mut rep, &q3);
+        } } } }
+    }
     built_stream(&mut rep);
     lexical_stream(&mut rep, &mut g, if opts.thorough() { 20000 } else { 2000 });
     constraint_stream(&mut rep);
